@@ -333,7 +333,97 @@ def post_backend_init(ip, ctx, out):
     frame_obligations(ip, ctx, out)
 
 
+# ---- conversion sites that STORE caller arrays in library objects / results: what is kept owns its buffer
+def _reachable_arrays(x, seen=None, depth=0):
+    seen = set() if seen is None else seen
+    if id(x) in seen or depth > 6:
+        return []
+    seen.add(id(x))
+    if isinstance(x, NArr):
+        return [x]
+    out = []
+    if isinstance(x, (list, tuple)):
+        for y in x:
+            out += _reachable_arrays(y, seen, depth + 1)
+    elif isinstance(x, dict):
+        for y in x.values():
+            out += _reachable_arrays(y, seen, depth + 1)
+    elif hasattr(x, 'fields') and isinstance(getattr(x, 'fields'), dict):
+        for y in x.fields.values():
+            out += _reachable_arrays(y, seen, depth + 1)
+    return out
+
+
+def shares_caller_buffer(x):
+    return [repr(a) for a in _reachable_arrays(x) if str(a.buf.owner).startswith('caller:')]
+
+
+STORE_CASES = {
+    # name: (qualname, class or None, fields of self, argument builder(ip, variant) -> (args, kwargs))
+    '_parse_state': ('dynamics._parse_state', None, {}, lambda ip, v, A: ([A('state', 2), None], {})),
+    'Dynamics.add': ('dynamics.Dynamics.add', 'dynamics.Dynamics', {'_times': [], '_states': [], '_shape': None},
+                     lambda ip, v, A: ([Real('time'), A('state', 2)], {})),
+    'SimpleProcessTensor.set_initial_tensor': ('process_tensor.SimpleProcessTensor.set_initial_tensor', 'process_tensor.SimpleProcessTensor',
+                                               {'_initial_tensor': None, '_mpo_tensors': [], '_cap_tensors': []},
+                                               lambda ip, v, A: ([A('initial_tensor', 2)], {})),
+    'SimpleProcessTensor.set_mpo_tensor': ('process_tensor.SimpleProcessTensor.set_mpo_tensor', 'process_tensor.SimpleProcessTensor',
+                                           {'_initial_tensor': None, '_mpo_tensors': [], '_cap_tensors': []},
+                                           lambda ip, v, A: ([2, A('tensor', 4)], {})),
+    'SimpleProcessTensor.set_cap_tensor': ('process_tensor.SimpleProcessTensor.set_cap_tensor', 'process_tensor.SimpleProcessTensor',
+                                           {'_initial_tensor': None, '_mpo_tensors': [], '_cap_tensors': []},
+                                           lambda ip, v, A: ([1, A('tensor', 1)], {})),
+    'SimpleProcessTensor.__init__': ('process_tensor.SimpleProcessTensor.__init__', 'process_tensor.SimpleProcessTensor', {},
+                                     lambda ip, v, A: ([Int('hs_dim')], {'transform_in': A('transform_in', 2), 'transform_out': A('transform_out', 2)})),
+    'Gate': ('mps_mpo.Gate.__init__', 'mps_mpo.Gate', {}, lambda ip, v, A: ([[0, 1], [A('tensors[0]', 3), A('tensors[1]', 3, first='tensors[0]_2')]], {})),
+    'ChainControl.add_single_site_control': ('control.ChainControl.add_single_site_control', 'control.ChainControl',
+                                             {'_hs_dims': None, '_single_site_controls_pre': [], '_single_site_controls_post': []},
+                                             None),
+}
+
+
+def scen_store(case, variant):
+    qual, cls, fields, mk = STORE_CASES[case]
+
+    def scen(ip, repo):
+        arrays = []
+
+        def A(name, rank, first=None):
+            ds = dims(ip, *['%s_%d' % (name, k) for k in range(rank)])
+            if first is not None:
+                ds[0] = Int(first)
+            a = caller_array(name, tuple(ds), variant[0], variant[1])
+            arrays.append(a)
+            return a
+        if case == 'ChainControl.add_single_site_control':
+            d = dims(ip, 'hs_dim')[0]
+            self_ = mkobj(repo, cls, _hs_dims=[d, d], _single_site_controls_pre=[], _single_site_controls_post=[])
+            a = caller_array('control', (d * d, d * d), variant[0], variant[1])
+            arrays.append(a)
+            args, kw = [a, 1, 3], {'post': Bool('post')}
+        else:
+            args, kw = mk(ip, variant, A)
+            self_ = None
+            if cls is not None:
+                import copy as _c
+                self_ = mkobj(repo, cls, **{k: (_c.copy(v) if isinstance(v, list) else v) for k, v in fields.items()})
+        conts = [(('args[%d]' % i), a, snapshot(a)) for i, a in enumerate(args) if isinstance(a, list)]
+        return {'args': ([self_] if self_ is not None else []) + args, 'kwargs': kw, 'self': self_, 'arrays': arrays, 'containers': conts,
+                'inputs': {'layout': vname(variant), 'site': case}}
+    return scen
+
+
+def post_store(ip, ctx, out):
+    frame_obligations(ip, ctx, out)
+    if out.returned:
+        kept = ctx['self'] if ctx['self'] is not None else out.value
+        sh = shares_caller_buffer(kept)
+        n = len(_reachable_arrays(kept))
+        ip.prove('fresh/stored-arrays-own-their-buffers', z3.BoolVal(not sh and n >= 1), {'arrays kept': n, 'sharing a buffer with a caller array': sh[:3]})
+
+
 def rp(ob):
+    if 'arr/store[' in (ob.get('target') or ''):
+        return {'func': 'stored_arrays', 'inputs': {'obligation': ob['name'], 'target': ob.get('target')}}
     return {'func': 'arrays', 'inputs': {'obligation': ob['name'], 'target': ob.get('target'), 'info': ob.get('info')}}
 
 
@@ -360,6 +450,8 @@ def targets(tier='quick'):
                    scen_backend_init(v), post_backend_init, backend_registry(), PROP, replay=rp)
         t.keep, t.path_end = keep_array, path_end_dyn
         T.append(t)
+        for case in STORE_CASES:
+            T.append(Target('arr/store[%s,%s]' % (case, n), STORE_CASES[case][0], scen_store(case, v), post_store, R, PROP, replay=rp))
         for ranks in ((1, 1), (2, 2), (3, 3), (4, 4), (2, 3)):
             T.append(Target('arr/AugmentedMPS[%s,ranks=%s]' % (n, ranks), 'mps_mpo.AugmentedMPS.__init__', scen_amps(v, ranks), post_amps, R, PROP,
                             replay=rp))
